@@ -193,3 +193,37 @@ LEMMAS = [L.SmtLemma("affine-transformation-of-moments", _affine_lemma), L.SmtLe
 ASSUMPTIONS = ["A-DIST: the distribution's interval moments satisfy M0>=0, x1*M0<=M1<=x2*M0 (true of every probability density; scipy/chaospy + quad accuracy not verified)",
                "weighted weights proved for boundary points on and finite grid points; infinite ends, boundary-off renormalisation, weighted midpoint, Sum of weights == 1: layer B",
                "moment vectors of length 1..3 (loop-free unrolling)"]
+
+
+# --------------------------------------------------------------------------- weighted midpoint (equal-probability split)
+from pyvc.values import Func  # noqa: E402
+
+CDF = z3.Function("cdf", z3.RealSort(), z3.RealSort())
+PPF = z3.Function("ppf", z3.RealSort(), z3.RealSort())
+
+
+class MiddleWeighted(Contract):
+    """GlobalTrapezoidalGridWeighted.get_middle_weighted on a finite interval with the distribution abstracted (A-DIST-CDF): cdf strictly
+    increasing on [a,b], ppf its inverse there.  The returned point lies strictly inside the interval and halves its probability; the
+    arithmetic-midpoint fall-back is unreachable under these assumptions (it is reached by real distributions when ppf is inexact or the
+    density vanishes: layer B)."""
+    file, qualname = "sparseSpACE/Grid.py", "GlobalTrapezoidalGridWeighted.get_middle_weighted"
+
+    def inputs(self, S):
+        a, b = S.real("a"), S.real("b")
+        S.assume(a < b)
+        x, y = z3.Reals("cx cy")
+        S.assume(z3.ForAll([x, y], z3.Implies(z3.And(a <= x, x < y, y <= b), CDF(x) < CDF(y)), patterns=[z3.MultiPattern(CDF(x), CDF(y))]), "A-DIST-CDF:strictly-increasing")
+        S.assume(z3.ForAll([x], z3.Implies(z3.And(CDF(a) <= x, x <= CDF(b)), z3.And(a <= PPF(x), PPF(x) <= b, CDF(PPF(x)) == x)), patterns=[PPF(x)]), "A-DIST-CDF:ppf-inverts-cdf")
+        return {"a": a, "b": b, "cdf": Func("spec", CDF), "ppf": Func("spec", PPF)}
+
+    def post(self, S, old, env, result):
+        from pyvc import values as Vv
+        m = Vv.to_z3(result, True)
+        a, b = old["a"], old["b"]
+        return [Cl("midpoint-strictly-inside-the-interval", z3.And(a < m, m < b), prop=True),
+                Cl("midpoint-halves-the-probability-of-the-interval", CDF(m) - CDF(a) == CDF(b) - CDF(m), prop=True)]
+
+
+CONTRACTS += [MiddleWeighted()]
+ASSUMPTIONS += ["A-DIST-CDF (get_middle_weighted): cdf strictly increasing on the interval, ppf its exact inverse on [cdf(a), cdf(b)]; finite interval ends"]
